@@ -33,6 +33,11 @@ def c15_rf17(run):
     run.min_instances('RF17', 500)
 
 
+def c15_rf16h(run):
+    rf_flow.rf16h(run)
+    run.min_instances('RF16h', 2)
+
+
 def c02_rf8(run):
     rf_sig.rf8(run, engines=('interp', 'folder'))
     run.min_instances('RF8', 250)
@@ -120,7 +125,7 @@ PLAN = {
     'C11': [c11_rf6, c11_vocab],
     'C02': [c02_rf8],
     'C20': [c20_rf8, c20_rf6, c20_rf21],
-    'C15': [c15_rf17],
+    'C15': [c15_rf17, c15_rf16h],
     'C18': [c18_rf5],
     'C17': [c17_rf1, c17_rf3],
 }
